@@ -35,6 +35,7 @@ IMPORTS = ("From Coq Require Import QArith.\n"
            "From CKT Require Import Common.Base Model.Observables Corr.C01Corr.\n"
            "Close Scope Q_scope.")
 TOL_VALUE = 1e-7
+OWN_EVAL_MAX_CIRCUITS = 80      # the harness's own evaluation of the returned subexperiments is done for small cases
 LETTERS = "IXYZ"
 
 # ------------------------------------------------------------------------------------------------
@@ -346,6 +347,7 @@ def run_pipeline(spec):
             sub_lists = [subobs[lab] for lab in part_labels]
             counts = [len(subexps.get(lab, [])) for lab in part_labels]
             keys_ok = set(subcircuits.keys()) == set(subobs.keys()) and None not in subobs
+            own_items = [(subexps.get(lab, []), subobs[lab], coll) for lab, coll in zip(part_labels, colls)]
         else:
             if form == "single_cut_gates":
                 qc = build_circuit(spec, False)
@@ -364,6 +366,7 @@ def run_pipeline(spec):
             sub_lists = [observables]
             counts = [len(subexps)]
             keys_ok = True
+            own_items = [(subexps, observables, colls[0])]
     except ValueError as e:
         out.update(outcome="refused", detail=str(e)[:300])
         return out
@@ -405,6 +408,17 @@ def run_pipeline(spec):
     except Exception as e:  # noqa: BLE001
         out.update(outcome="crashed", detail=f"structure of the returned objects could not be read: {type(e).__name__}: {str(e)[:200]}")
         return out
+    own_vals = None
+    try:
+        if sum(counts) <= OWN_EVAL_MAX_CIRCUITS:
+            items = []
+            for circs, subs, coll in own_items:
+                gidx = [sorted({int(m) for m, _ in coll.lookup[o]}) for o in subs]
+                items.append((circs, subs, gidx, len(coll.groups)))
+            own_vals = own_reconstruction(items, coeffs, len(spec["obs"]))
+    except Exception as e:  # noqa: BLE001
+        own_vals = f"own evaluation failed: {type(e).__name__}: {str(e)[:120]}"
+    out["own_values"] = own_vals
     try:
         vals = [float(v) for v in values]
     except Exception as e:  # noqa: BLE001
@@ -480,6 +494,83 @@ def uncut_expectations(spec):
     return vals
 
 
+# ------------------------------------------------------------------------------------------------
+# the harness's OWN evaluation of the returned subexperiments and OWN reconstruction sum (observe_at item 2):
+# localises a wrong number to generation (own reconstruction of the returned circuits is wrong too) or to
+# reconstruction (own reconstruction of the returned circuits is right, the package's value is not)
+# ------------------------------------------------------------------------------------------------
+def own_distribution(qc):
+    """{clbit integer: probability} of a circuit with mid-circuit measurements and resets, by branch splitting."""
+    n = qc.num_qubits
+    psi = np.zeros((2,) * n, dtype=complex)
+    psi[(0,) * n] = 1.0
+    branches = [(psi, 0)]
+    P1 = np.array([[0, 0], [0, 1]], dtype=complex)
+    for inst in qc.data:
+        nm = inst.operation.name
+        qs = [qc.find_bit(q).index for q in inst.qubits]
+        if nm == "barrier":
+            continue
+        if nm in ("measure", "reset"):
+            cb = qc.find_bit(inst.clbits[0]).index if nm == "measure" else None
+            nb = []
+            for b, k in branches:
+                for outcome, K in ((0, P0), (1, P1 if nm == "measure" else K01)):
+                    c = apply_matrix(b, n, K, qs)
+                    if float(np.vdot(c.reshape(-1), c.reshape(-1)).real) > 1e-30:
+                        k2 = k if cb is None else ((k | (1 << cb)) if outcome else (k & ~(1 << cb)))
+                        nb.append((c, k2))
+            branches = nb
+            continue
+        mat = Operator(inst.operation).data
+        branches = [(apply_matrix(b, n, mat, qs), k) for b, k in branches]
+    dist = {}
+    for b, k in branches:
+        dist[k] = dist.get(k, 0.0) + float(np.vdot(b.reshape(-1), b.reshape(-1)).real)
+    return dist
+
+
+def own_reconstruction(part_items, coeffs, nobs):
+    """part_items: per partition (list of circuits, sub-observables, group index per observable k, #groups).
+    value_k = sum_z coeff_z * prod_partitions <(-1)^(qpd parity) * prod_{q in supp P_k} (-1)^(bit measuring q)>."""
+    total = np.zeros(nobs)
+    dists = []
+    for circs, subs, gidx, G in part_items:
+        dists.append([own_distribution(c) for c in circs])
+    for z, cf in enumerate(coeffs):
+        cur = np.ones(nobs)
+        for (circs, subs, gidx, G), dd in zip(part_items, dists):
+            for k in range(nobs):
+                vals = []
+                for m in gidx[k]:
+                    qc = circs[z * G + m]
+                    obs_bits = {}
+                    qpd_mask = 0
+                    for reg in qc.cregs:
+                        if reg.name == "qpd_measurements":
+                            for b in reg:
+                                qpd_mask |= 1 << qc.find_bit(b).index
+                    obs_reg = [r for r in qc.cregs if r.name == "observable_measurements"][0]
+                    obs_set = {qc.find_bit(b).index for b in obs_reg}
+                    for inst in qc.data:
+                        if inst.operation.name == "measure":
+                            cb = qc.find_bit(inst.clbits[0]).index
+                            if cb in obs_set:
+                                obs_bits[qc.find_bit(inst.qubits[0]).index] = cb
+                    p = subs[k]
+                    supp = [q for q in range(qc.num_qubits) if p.x[q] or p.z[q]]
+                    e = 0.0
+                    for o, pr in dd[z * G + m].items():
+                        par = bin(o & qpd_mask).count("1")
+                        for q in supp:
+                            par += (o >> obs_bits[q]) & 1
+                        e += pr * (-1.0 if par & 1 else 1.0)
+                    vals.append(e)
+                cur[k] *= float(np.mean(vals))
+        total += float(cf[0]) * cur
+    return [float(v) for v in total]
+
+
 def idle_qubits(spec):
     """Qubits the separated form discards: explicit label None, or (automatic labels) untouched by every instruction."""
     touched = set()
@@ -520,7 +611,13 @@ def verdict(spec, impl):
         return dict(violates=True, detail=f"{0 if vals is None else len(vals)} values for {len(truth)} observables")
     err = max(abs(a - b) for a, b in zip(vals, truth)) if truth else 0.0
     if not all(math.isfinite(v) for v in vals) or err > TOL_VALUE:
-        return dict(violates=True, detail=f"reconstructed {vals} but the uncut circuit has {truth} (max deviation {err:.3e})"
+        own = impl.get("own_values")
+        loc = ""
+        if isinstance(own, list) and len(own) == len(truth):
+            own_err = max(abs(a - b) for a, b in zip(own, truth))
+            loc = (" [own reconstruction of the RETURNED subexperiments also deviates: generation side]" if own_err > TOL_VALUE
+                   else " [own reconstruction of the returned subexperiments gives the right value: reconstruction side]")
+        return dict(violates=True, detail=loc.strip() + " " + f"reconstructed {vals} but the uncut circuit has {truth} (max deviation {err:.3e})"
                                           + (" [observable on a discarded idle qubit]" if acts_on_dropped else ""))
     return dict(violates=False, detail=f"max deviation {err:.2e}" + (" (answered a request on a discarded qubit, correctly)" if acts_on_dropped else ""))
 
@@ -574,8 +671,16 @@ def one_case(w, spec):
     v = verdict(spec, impl)
     numbers_ok = not v["violates"]
     js = dict(spec)
-    js["impl"] = dict(outcome=impl["outcome"], detail=impl["detail"], values=impl["values"], st=impl["st"])
+    js["impl"] = dict(outcome=impl["outcome"], detail=impl["detail"], values=impl["values"], st=impl["st"],
+                      own_values=impl.get("own_values"))
     st = impl["st"] or {}
+    own = impl.get("own_values")
+    if impl["outcome"] == "ok":
+        if isinstance(own, list) and impl["values"] is not None:
+            agree = max([abs(a - b) for a, b in zip(own, impl["values"])] or [0.0]) <= TOL_VALUE
+            w.count("own_reconstruction_vs_package", "agrees" if agree else "DIFFERS")
+        else:
+            w.count("own_reconstruction_vs_package", "skipped (large)" if own is None else "own evaluation failed")
     ncuts = len(st.get("C", []))
     nsamples = len(st.get("samples", []))
     # judge must work from the stored JSON alone and must not flag a case the live oracle accepted
@@ -639,7 +744,7 @@ def fixed_specs():
 SIX_MAP_GATES = [("rzz", [0.9]), ("rxx", [0.4]), ("ryy", [0.7]), ("cx", []), ("cz", []), ("cy", []), ("ch", []),
                  ("crx", [0.8]), ("cry", [1.3]), ("crz", [1.1]), ("cp", [0.6]), ("csx", []), ("cs", []), ("ecr", [])]
 ASYMMETRIC_GATES = [("cx", []), ("cy", []), ("ch", []), ("crx", [0.8]), ("cry", [1.3]), ("csx", []), ("ecr", []),
-                    ("dcx", []), ("cs", [])]
+                    ("cs", []), ("csdg", [])]
 EXOTIC = [(1, 2), 3.5, "foo", frozenset([1]), -7, "", ("a", 0), True]
 
 
@@ -700,10 +805,10 @@ def targeted_specs(rng, tier):
         a = int(rng.integers(0, sizes[0]))
         gates += _rot_layer(rng, [b, c])
         gates.append(_g2(gsel[1], *( (a, other) if rng.integers(0, 2) else (other, a) )))  # cut 1: A - x
-        if nparts == 4 and rng.integers(0, 2):
+        if nparts == 4 and rng.integers(0, 2) and tier != "quick":   # three cuts: 216 samples x 4 partitions
             gates.append(_g2(gsel[2], first_q[3], first_q[1]))                                # cut 2: D - B
         gates += _rot_layer(rng, range(n))
-        obs = _dense_obs(rng, n, 3) + [[3] * n]
+        obs = _dense_obs(rng, n, 2 if tier == "quick" else 3) + [[3] * n]
         specs.append(dict(kind="roundtrip", it=-2, n=n, form="dict_explicit", gates=gates,
                           labels=[T(l) for l in labels], obs=obs, idle=[], stream="bases_order"))
     # (b) X-only observables on a discarded idle qubit (true value 0; must be refused or answered with 0)
@@ -825,7 +930,7 @@ def generate(rng, tier, outdir):
     w.SHARD = 16  # the structural check enumerates the whole product space: keep shards small, they run in parallel
     # deterministic budget: a number of requests and a cap on the total number of subexperiments simulated
     max_cases = 200 if tier == "quick" else 1200
-    max_circuits = 23000 if tier == "quick" else 190000
+    max_circuits = 6500 if tier == "quick" else 160000
     t0 = time.time()
     ncirc = 0
     for spec in fixed_specs():
@@ -835,7 +940,8 @@ def generate(rng, tier, outdir):
         ncirc += one_case(w, spec)
         ntarget += 1
     it = 0
-    while it < max_cases and ncirc < max_circuits:
+    base = ncirc                      # the targeted streams have their own (bounded) cost
+    while it < max_cases and ncirc - base < max_circuits:
         spec = gen_spec(rng, tier, it)
         ncirc += one_case(w, spec)
         it += 1
@@ -874,7 +980,8 @@ def judge(case):
 
 def rerun(case):
     impl = run_pipeline(case)
-    case["impl"] = dict(outcome=impl["outcome"], detail=impl["detail"], values=impl["values"], st=impl["st"])
+    case["impl"] = dict(outcome=impl["outcome"], detail=impl["detail"], values=impl["values"], st=impl["st"],
+                        own_values=impl.get("own_values"))
     return case
 
 
